@@ -25,6 +25,44 @@ theorem total_customer_fields (s : Text) :
     F50K.parse s ≠ .panic ∧ F59.parse s ≠ .panic ∧ F59A.parse s ≠ .panic := customer_fields_no_panic s
 theorem total_bic (s : Text) : parseBic s ≠ .panic := parseBic_no_panic s
 
+/-- the amount-bearing fields 32A/B/C/D, 33B, 71F/G, 34F, 60F/M, 62F/M, 64, 65, 19: the models guard with the ASCII and
+length checks of the code (after the `fix:` commits) before any slicing -/
+theorem total_amount_fields (s : Text) (pos : Bool) :
+    CcyAmt.parse pos s ≠ .panic ∧ DateCcyAmt.parse s ≠ .panic ∧ Balance.parse s ≠ .panic ∧ F34F.parse s ≠ .panic ∧
+    F19.parse s ≠ .panic := by
+  have hcur : ∀ t, parseCurrency t ≠ .panic := by
+    intro t; unfold parseCurrency; repeat' split
+    all_goals simp
+  have hcnc : ∀ t, parseCurrencyNonCommodity t ≠ .panic := by
+    intro t; unfold parseCurrencyNonCommodity
+    split
+    · split <;> simp
+    · rename_i r hne
+      cases hr : parseCurrency t with
+      | ok c => exact absurd hr (hne c)
+      | err => simp
+      | panic => exact absurd hr (hcur t)
+  have hamt : ∀ a c p, amountPart a c p ≠ .panic := by
+    intro a c p; unfold amountPart; repeat' split
+    all_goals simp
+  refine ⟨?_, ?_, ?_, ?_, ?_⟩
+  · unfold CcyAmt.parse
+    repeat' split
+    all_goals first | (rename_i hh; first | exact absurd hh (hcnc _) | exact absurd hh (hamt _ _ _)) | simp
+  · unfold DateCcyAmt.parse
+    repeat' split
+    all_goals first | (rename_i hh; first | exact absurd hh (hcnc _) | exact absurd hh (hamt _ _ _)) | simp
+  · unfold Balance.parse
+    simp only
+    repeat' split
+    all_goals first | (rename_i hh; exact absurd hh (hcur _)) | simp
+  · unfold F34F.parse
+    simp only
+    repeat' split
+    all_goals first | (rename_i hh; first | exact absurd hh (hcur _) | exact absurd hh (hamt _ _ _)) | simp
+  · unfold F19.parse Res.ofOption
+    split <;> simp
+
 /-- Byte slicing is the only primitive that can panic, and it cannot on ASCII text within bounds. -/
 theorem slice_total_on_ascii (t : Text) (a b : Nat) (h : isAsciiT t = true) (hab : a ≤ b) (hb : b ≤ t.length) :
     bslice t a b ≠ .panic := by
